@@ -11,6 +11,16 @@ E3 = "bounded exhaustive enumeration of inputs/programs/configurations executed 
 
 # pid -> (technique, level text, level note, design ref)
 CHECKS = {
+    "C20": (
+        E1,
+        "The real DataSourcingActor over the fake microgrid API and a real ChannelRegistry: per plan (two metrics and two namespaces of "
+        "one component with a duplicate and an unknown-component request; two components; one component per category) every "
+        "interleaving of subscription requests and data messages at quiescence, plus injection between loop iterations and "
+        "asyncio.wait done-set orders as bounded deviations; every stream subscribed before a message gets it exactly once with the "
+        "metric's value and the message's timestamp, never duplicates or reordering, nothing for unknown components.",
+        "Harness receivers attached to the registry channels up-front; messages racing with a stream's own subscription may or may not appear on it.",
+        "DESIGN.md §3 C20",
+    ),
     "C07": (
         E1 + " (exhaustive deviation sets)",
         "The real Resampler on the virtual loop with the wall clock bound to it: 2 periods x 4 align_to settings x 5 creation phases x "
